@@ -169,6 +169,11 @@ func runC11(c *Ctx) {
 		c.Unres("S", "VerifySignature call sites", fmt.Sprintf("only %d call sites found, expected at least 4", nVS))
 	}
 
+	// commit signatures are verified per validator index against that validator's address (imported from C02)
+	verifyCommitRules(c)
+	// malformed (wrong-length) signatures are rejected before any byte of them is read
+	c.ConstIndexGuarded([]string{"lib/crypto"}, `.`, map[string]string{})
+
 	// ---- signer binding -----------------------------------------------------------------------------
 	if fn := c.Fn("types", "", "VerifySignature"); fn != nil {
 		c.GuardedReturnVal(fn, "return true", 0, `^const:true$`,
